@@ -85,6 +85,22 @@ fn run(ctx: &RunCtx) -> Report {
     let el_byz = |i: usize| barrage + i;
     let el_call = |i: usize| barrage + n_byz + i;
 
+    // 1 run in 6: every scripted peer claims the id the lookup is looking for (distance 0 to the
+    // target: the size estimate derived from the responders' ids degenerates), otherwise honest
+    let echo_target_ids = rng.chance(1, 6);
+    if echo_target_ids {
+        report.probe("responders_claiming_the_target_as_id", 1);
+    }
+    // 1 run in 4: honest peers also list a contact at the unspecified address 0.0.0.0:7777; what is sent
+    // there is delivered locally (as Linux does), where a small service answers from a concrete address
+    let unspecified_contacts = rng.chance(1, 4);
+    if unspecified_contacts {
+        for i in 0..n_peers {
+            let id = rng.id();
+            rawnet.with_peer(i, |p| p.extra_nodes.push((id, SocketAddrV4::new(std::net::Ipv4Addr::UNSPECIFIED, 7777))));
+        }
+        report.probe("contacts_at_the_unspecified_address", 1);
+    }
     // Byzantine repliers: mutate the honest reply, or answer with something else entirely
     let byz: Vec<usize> = (0..n_byz).filter(|i| ctx.enabled(el_byz(*i))).collect();
     {
@@ -92,6 +108,18 @@ fn run(ctx: &RunCtx) -> Report {
         let mut hr = Rng::new(ctx.seed ^ 0xc05);
         rawnet.set_hook(Box::new(move |rctx, sh, idx, from, msg: &Krpc| {
             if !byz.contains(&idx) {
+                if echo_target_ids {
+                    if let (Some(t), Some((delay, bytes))) = (msg.target(), default_reply(sh, idx, rctx.now, from, msg)) {
+                        if let Ok(mut parsed) = bencode::parse(&bytes) {
+                            if let Some(r) = parsed.value.get_mut("r") {
+                                r.set("id", Value::bytes(&t));
+                                let me = rctx.me;
+                                rctx.send_after(delay, me, from, parsed.value.encode());
+                                return HookResult::Handled;
+                            }
+                        }
+                    }
+                }
                 return HookResult::Default;
             }
             let q = msg.query_name().unwrap_or("").to_string();
@@ -157,6 +185,15 @@ fn run(ctx: &RunCtx) -> Report {
     cspec.bootstrap.push(sim.node_addr(server).to_string());
     let client = sim.add_node(cspec);
     let victims = [server, client];
+    if unspecified_contacts {
+        // the local services behind 0.0.0.0:7777 of each victim
+        for ip in [server_ip, client_ip] {
+            let mut p = Peer::new(rng.id(), SocketAddrV4::new(ip, 7777));
+            p.k = 8;
+            p.knows = (0..n_peers).collect();
+            rawnet.add(&sim, p);
+        }
+    }
     sim.run_for(2 * SEC);
 
     // API calls in flight during the barrage
